@@ -119,10 +119,11 @@ func zzBindModule(w *zzWorld, in int, name string, mod int) {
 }
 
 // zzWorldShape builds a tree of <= 3 scopes:
-//  0: root            1: root <- c1          2: root <- c1 <- c2
-//  3: root <- c1, root <- c2 (siblings)
-//  4: root with module m (=scope 1), module holds module m2 (= scope 2)
-//  5: root <- c1, root binds m to a non-module int (path through a non-module)
+//
+//	0: root            1: root <- c1          2: root <- c1 <- c2
+//	3: root <- c1, root <- c2 (siblings)
+//	4: root with module m (=scope 1), module holds module m2 (= scope 2)
+//	5: root <- c1, root binds m to a non-module int (path through a non-module)
 func zzWorldShape(shape int, withTypes bool) *zzWorld {
 	w := &zzWorld{}
 	zzAddScope(w, -1)
